@@ -30,7 +30,7 @@ CFG = {
                         "reach.sidx_entries_checked", "reach.sampler_called", "reach.sampler_answered_drop", "reach.trace_dropped_whole", "reach.trace_dropped_then_late_spans_kept",
                         "fault.sampler_error", "fault.sampler_panic", "fault.sampler_wrong_length", "fault.sampler_timeout", "reach.sampler_link_ran_after_deadline",
                         "reach.held_goroutine_released", "reach.released_out_of_usual_order", "reach.write_while_merge_goroutine_held"],
-    "det_n": 48,
+    "det_n": {"quick": 24, "thorough": 64},
     "gates": [
         {"files": ["banyand/trace/merger.go", "banyand/trace/tstable.go", "pkg/run/goroutine.go"], "mode": "A"},
     ],
